@@ -266,6 +266,28 @@ func FillBlock(b biscuit.BlockBuilder, blk refdl.Block) error {
 	return nil
 }
 
+// FillBlockParsed adds the same content in one AddBlock(ParsedBlock) call (the route the text parser's
+// results take) instead of one Add call per element.
+func FillBlockParsed(b biscuit.BlockBuilder, blk refdl.Block) error {
+	var pb biscuit.ParsedBlock
+	for _, f := range blk.Facts {
+		pb.Facts = append(pb.Facts, Fact(f))
+	}
+	for _, r := range blk.Rules {
+		pb.Rules = append(pb.Rules, Rule(r))
+	}
+	for _, c := range blk.Checks {
+		pb.Checks = append(pb.Checks, Check(c))
+	}
+	if err := b.AddBlock(pb); err != nil {
+		return err
+	}
+	if blk.Context != "" {
+		b.SetContext(blk.Context)
+	}
+	return nil
+}
+
 // Token builds authority + blocks with deterministic randomness.
 func Token(rootSeed byte, rngSeed uint64, authority refdl.Block, blocks []refdl.Block, opts ...interface{}) (*biscuit.Biscuit, error) {
 	_, priv := Keys(rootSeed)
